@@ -1202,6 +1202,39 @@ pub fn generator_reuse(a: &Args) -> Report {
   let seed = a.u64("seed", 1);
   let mut rng = rng_from(seed, 4711);
   let oprf = OprfServer::new(vec![0, 1, 2, 3]).expect("oprf");
+  // a generator kept by a client and pointed at ANOTHER measurement through its public field `x`:
+  // randomness, key and tag must be those of a fresh generator for the new measurement (C04: a
+  // function of exactly (measurement, epoch, threshold) — not of what the object was built with)
+  for case in 0..6u64 {
+    let t: u32 = 2 + (case % 3) as u32;
+    let e = vec![0x30 + case as u8; (case % 3) as usize * 9];
+    let m1 = rand_bytes(&mut rng, 12);
+    let m2 = rand_bytes(&mut rng, [1usize, 12, 200][(case % 3) as usize]);
+    let mut kept = sta_rs::MessageGenerator::new(sta_rs::SingleMeasurement::new(&m1), t, &e);
+    let mut r_first = [0u8; 32];
+    kept.sample_local_randomness(&mut r_first);
+    if case % 2 == 0 {
+      let _ = guard(|| kept.share_with_local_randomness().is_ok());
+    }
+    kept.x = sta_rs::SingleMeasurement::new(&m2);
+    let fresh = sta_rs::MessageGenerator::new(sta_rs::SingleMeasurement::new(&m2), t, &e);
+    let (mut ra, mut rb) = ([0u8; 32], [0u8; 32]);
+    kept.sample_local_randomness(&mut ra);
+    fresh.sample_local_randomness(&mut rb);
+    rep.evaluations += 1;
+    let ctx = json!({"case": case, "threshold": t, "epoch_len": e.len(), "second_measurement_len": m2.len()});
+    if ra != rb {
+      rep.violation("C04", "MessageGenerator::sample_local_randomness", "generator-reuse:randomness-of-the-old-measurement",
+        "a generator whose measurement was replaced derives randomness that differs from a fresh generator's for the same (measurement, epoch, threshold)".into(), ctx.clone());
+    }
+    if let (Guard::Done(Ok(wa)), Guard::Done(Ok(wb))) = (guard(|| kept.share_with_local_randomness()), guard(|| fresh.share_with_local_randomness())) {
+      if wa.tag != wb.tag || wa.key != wb.key {
+        rep.violation("C04", "MessageGenerator::share_with_local_randomness", "generator-reuse:tag-or-key-of-the-old-measurement",
+          "a generator whose measurement was replaced produces a tag / key that differs from a fresh generator's".into(), ctx.clone());
+      }
+    }
+    rep.nontrivial(format!("reuse-field:{case}"));
+  }
   for case in 0..12u64 {
     let t: u32 = 2 + (case % 3) as u32;
     let m = rand_bytes(&mut rng, [5usize, 32, 170][(case % 3) as usize]);
